@@ -43,7 +43,66 @@ DOMAIN_PROFILES = {  # NRPS/PKS domain profile -> length
 }
 
 
+# every domain name the NRPS/PKS module builder classifies (module_identification.CLASSIFICATIONS)
+DOMAIN_CLASSES = {
+    "A": ["AMP-binding", "A-OX"], "AT": ["PKS_AT"],
+    "C": ["Cglyc", "Condensation_DCL", "Condensation_LCL", "Condensation_sid", "Condensation_Starter",
+          "Condensation_Dual", "Heterocyclization"],
+    "E": ["Abhydrolase_1", "cAT", "Epimerization", "Thioesterase", "TD"], "KS": ["PKS_KS"],
+    "+": ["PKS_DH", "PKS_DH2", "PKS_DHt", "PKS_KR", "PKS_ER", "cMT", "nMT", "oMT", "Beta_elim_lyase",
+          "LPG_synthase_C", "TauD"],
+    "CP": ["ACP", "ACP_beta", "PCP", "PKS_PP", "PP-binding"], "S": ["CAL_domain", "SAT"],
+    "docking": ["NRPS-COM_Cterm", "NRPS-COM_Nterm", "PKS_Docking_Cterm", "PKS_Docking_Nterm"],
+    ".": ["ACPS", "Aminotran_1_2", "B", "ECH", "F", "FkbH", "GNAT", "Hal", "NAD_binding_4", "Polyketide_cyc", "PS",
+          "PT", "TIGR02353", "X"],
+    "!": ["Trans-AT_docking", "TIGR01720"],
+}
+for _names in DOMAIN_CLASSES.values():
+    for _name in _names:
+        DOMAIN_PROFILES.setdefault(_name, 60)
 MAIN_DOMAINS = sorted(name for name in DOMAIN_PROFILES if not name.endswith("-KS"))
+
+
+def module_layout(rng: Any) -> List[Any]:
+    """ A seeded domain layout for one gene: 1-3 modules in the grammar the module builder documents
+        ([starter] loader [modification...] carrier [finalisation]), including trans-AT modules, CoA-ligase
+        starters, the double carrier protein case and occasional stray domains.
+        Entries are names, or (name, KS subtype) pairs. """
+    pick = rng.choice
+    layout: List[Any] = []
+    count = rng.randint(1, 3)
+    for index in range(count):
+        flavour = pick(["pks", "pks", "nrps", "nrps", "transat", "cal", "double_cp"])
+        if flavour == "pks":
+            module = [("PKS_KS", pick(["Hybrid-KS", "Modular-KS", "Iterative-KS", None])), "PKS_AT"]
+            module += rng.sample(["PKS_DH", "PKS_KR", "PKS_ER", "cMT", "oMT"], rng.randint(0, 2))
+            module.append(pick(["ACP", "PKS_PP", "PP-binding"]))
+        elif flavour == "nrps":
+            module = [pick(DOMAIN_CLASSES["C"]), pick(["AMP-binding", "AMP-binding", "A-OX"])]
+            if rng.random() < 0.3:
+                module.append(pick(["nMT", "cMT", "oMT"]))
+            module.append(pick(["PCP", "PP-binding"]))
+            if rng.random() < 0.3:
+                module.append("Epimerization")
+        elif flavour == "transat":
+            module = [("PKS_KS", "Trans-AT-KS")] + rng.sample(["PKS_DH", "PKS_KR", "cMT"], rng.randint(0, 2))
+            module.append(pick(["ACP", "ACP_beta"]))
+            if rng.random() < 0.3:
+                module.append("PKS_KR")
+        elif flavour == "cal":
+            module = ["CAL_domain", pick(["ACP", "PCP"])]
+        else:
+            module = [("PKS_KS", "Trans-AT-KS"), "ACP", "ACP", "LPG_synthase_C", "Beta_elim_lyase"]
+        if rng.random() < (0.6 if index == count - 1 else 0.15):
+            module.append(pick(DOMAIN_CLASSES["E"]))
+        if rng.random() < 0.15:
+            module.insert(rng.randrange(len(module) + 1), pick(DOMAIN_CLASSES["."] + DOMAIN_CLASSES["!"]))
+        layout.extend(module)
+    if rng.random() < 0.2:
+        layout.insert(0, pick(["NRPS-COM_Nterm", "PKS_Docking_Nterm"]))
+    if rng.random() < 0.2:
+        layout.append(pick(["NRPS-COM_Cterm", "PKS_Docking_Cterm"]))
+    return layout
 
 
 def scratch_dir(prefix: str) -> str:
